@@ -3,10 +3,23 @@
 package main
 
 import (
+	"bytes"
+	"encoding/json"
 	"flag"
 	"fmt"
 	"os"
+	"os/exec"
+	"path/filepath"
+
+	"verif/harness/hx"
 )
+
+func tailBytes(b []byte, n int) []byte {
+	if len(b) > n {
+		return b[len(b)-n:]
+	}
+	return b
+}
 
 type driver func(seed int64, tier string, outDir string, replay string)
 
@@ -36,5 +49,40 @@ func main() {
 		*out = "work/" + prop
 	}
 	os.MkdirAll(*out, 0o755)
-	d(*seed, *tier, *out, *replay)
+	if os.Getenv("VDRIVE_CHILD") == "1" {
+		d(*seed, *tier, *out, *replay)
+		return
+	}
+	// Run the driver in a child process: a fatal error or unrecovered panic in the code under test is an
+	// observation (the property "does not crash" failed on the current case), not the end of the check.
+	os.Remove(filepath.Join(*out, "obs.json"))
+	os.Remove(filepath.Join(*out, "current_case.json"))
+	cmd := exec.Command(os.Args[0], os.Args[1:]...)
+	cmd.Env = append(os.Environ(), "VDRIVE_CHILD=1")
+	var stderr bytes.Buffer
+	cmd.Stdout = os.Stdout
+	cmd.Stderr = &stderr
+	err := cmd.Run()
+	os.Stderr.Write(tailBytes(stderr.Bytes(), 4000))
+	if err == nil {
+		return
+	}
+	if _, e := os.Stat(filepath.Join(*out, "obs.json")); e == nil {
+		os.Exit(3) // driver wrote its observations and then failed: leave it to bin/check
+	}
+	obs := hx.NewObs(prop, *seed, *tier)
+	var cur struct {
+		Case  int         `json:"case"`
+		Input interface{} `json:"input"`
+	}
+	if b, e := os.ReadFile(filepath.Join(*out, "current_case.json")); e == nil {
+		json.Unmarshal(b, &cur)
+	} else {
+		cur.Case = -1
+	}
+	obs.Evaluations = cur.Case + 1
+	obs.Rule = "run aborted: the process running the code under test died"
+	obs.Samples = append(obs.Samples, cur.Input)
+	obs.Fail(cur.Case, "the process running the code under test crashed ("+err.Error()+"): "+string(tailBytes(stderr.Bytes(), 1500)), cur.Input)
+	obs.Write(*out)
 }
